@@ -42,14 +42,32 @@ def gen_seq(rnd, sim, n_ops):
     idxs = list(itertools.product(*[range(e) for e in sim.es]))
     live = lambda: [i for i in range(4) if sim.pool[i] is not None and not sim.pool[i]['moved']]
     # constructions
-    c0 = rnd.choice(['cm', 'ce']) if (sim.kind != 'stride' and not sim.has_pv) else 'cm'
+    ext_ok = sim.kind != 'stride' and not sim.has_pv      # the mapping is fully determined by the extents
+    size_ctors = ['cm'] + ([] if arr else ['cma']) + ((['ce', 'ci'] + ([] if arr else ['cea'])) if ext_ok else [])
+    adopt_ctors = ['ad', 'am'] + ([] if arr else ['adma', 'amma']) + ((['ade', 'ame'] + ([] if arr else ['adea', 'amea'])) if ext_ok else [])
+    c0 = rnd.choice(size_ctors)
     sim.new(0, [0] * (N if arr else sim.span)); emit('%s:0' % c0); emit('ob:0', sim.obs(0)); emit('el:0', 'el=' + C.fmt(sim.pool[0]['buf'].d[:256]))
     n = N if arr else sim.span + rnd.choice([0, 0, 3])
     vals = [rnd.randint(1, 99) for _ in range(n)]
-    sim.new(1, vals); emit('%s:1:%s' % (rnd.choice(['ad', 'am']), C.fmt(vals))); emit('ob:1', sim.obs(1)); emit('el:1', 'el=' + C.fmt(vals[:256]))
+    sim.new(1, vals); emit('%s:1:%s' % (rnd.choice(adopt_ctors), C.fmt(vals))); emit('ob:1', sim.obs(1)); emit('el:1', 'el=' + C.fmt(vals[:256]))
+    sim.ctor_forms = (c0, seq[-3].split(':')[0])
     for _ in range(n_ops):
         L = live()
-        op = rnd.choice(['wa', 'ra', 'vw', 'wv', 'rv', 'cc', 'mc', 'ca', 'ma', 'ob', 'wa', 'ra', 'ov'])
+        op = rnd.choice(['wa', 'ra', 'vw', 'wv', 'rv', 'cc', 'mc', 'ca', 'ma', 'ob', 'wa', 'ra', 'ov', 'cv', 'nw'])
+        if op == 'nw':        # a further construction in a random slot (any of the constructor forms), observed at once
+            i = rnd.randrange(4)
+            if rnd.random() < 0.5:
+                cf = rnd.choice(size_ctors); sim.new(i, [0] * (N if arr else sim.span)); emit('%s:%d' % (cf, i))
+            else:
+                cf = rnd.choice(adopt_ctors); n2 = N if arr else sim.span + rnd.choice([0, 0, 1, 5]); v2 = [rnd.randint(1, 99) for _ in range(n2)]
+                sim.new(i, v2); emit('%s:%d:%s' % (cf, i, C.fmt(v2)))
+            emit('ob:%d' % i, sim.obs(i)); emit('el:%d' % i, 'el=' + C.fmt(sim.pool[i]['buf'].d[:256])); continue
+        if op == 'cv':        # converting constructor (through the all-dynamic twin and back), with or without allocator
+            src = [j for j in range(4) if sim.pool[j] is not None]
+            if not src: continue
+            j = rnd.choice(src); i = rnd.choice([x for x in range(4) if x != j]); sj = sim.pool[j]
+            sim.new(i, sj['buf'].d, sj['moved']); emit('%s:%d:%d' % (rnd.choice(['cv'] + ([] if arr else ['cva'])), i, j)); emit('ob:%d' % i, sim.obs(i)); emit('ob:%d' % j, sim.obs(j))
+            emit('el:%d' % i, 'el=' + C.fmt(sim.pool[i]['buf'].d[:256])); continue
         if op == 'wa' and L and idxs:
             i = rnd.choice(L); ix = rnd.choice(idxs); v = rnd.randint(100, 999)
             sim.pool[i]['buf'].d[sim.off(ix)] = v; emit('wa:%d:%d:%s' % (i, v, C.fmt(list(ix))))
@@ -93,8 +111,8 @@ def gen_seq(rnd, sim, n_ops):
 
 def check(prop, tier, seed, replay=None):
     rep = C.Report(prop, tier, seed); audit = C.proof_audit(prop); rnd = random.Random(seed); thorough = tier == 'thorough'
-    rep.cov['rule'] = ('mdarray<int, E, L, C> over 7 layouts x 3 index types x 6 extents patterns x {std::vector<int>, std::array<int,64>}: construct from mapping / extents (value-initialisation and exact size observed), '
-                       'adopt a container by const reference / by move, then 8 (thorough 40) random operations among element write / read (const and non-const) through the array, to_mdspan() / conversion operator, '
+    rep.cov['rule'] = ('mdarray<int, E, L, C> over 7 layouts x 3 index types x 6 extents patterns x {std::vector<int>, std::array<int,64>}: construct from mapping / extents / integer pack, each with and without allocator (value-initialisation and exact size observed), '
+                       'adopt a container by const reference / by move from extents or mapping, with and without allocator, converting construction (with and without allocator) through the all-dynamic twin type, then 8 (thorough 40) random operations among element write / read (const and non-const) through the array, to_mdspan() / conversion operator, '
                        'write / read through the view, copy / move construction and assignment, with observations of extents, strides, container size, size(), aliasing between all live objects and views; '
                        'only admissible actions (no access to moved-from objects, no use of views whose buffer was released); non-trivial = rank >= 1 and non-empty')
     cases = []
@@ -114,6 +132,9 @@ def check(prop, tier, seed, replay=None):
                 line = G.line(inst) + ' ext=%s' % C.fmt(es) + (' str=%s' % C.fmt(ss) if ss is not None else '') + (' pv=%d' % pv if pv is not None else '') + ' seq=' + '/'.join(seq)
                 cases.append((line, want, seq))
     lines = [c[0] for c in cases]
+    import collections
+    dist = collections.Counter(cmd.split(':')[0] for c in cases for cmd in (c[2] or []))
+    rep.notes['op_distribution'] = dict(sorted(dist.items()))
     mout = [canon(x) for x in C.driver(lines)]
     configs = ['gcc20-ubsan'] + (['gcc23-asan', 'clang20-O0-assert', 'gcc20-O2-ndebug-emul'] if thorough else [])
     rep.notes['configs'] = configs
@@ -141,5 +162,5 @@ def check(prop, tier, seed, replay=None):
                 elif g.startswith('e='): kind = 'container-size / size() / aliasing-of-copies-or-moves wrong'
                 rep.violation(dict(kind=kind, observation_index=k, impl=g, specified=want[k] if k < len(want) else None, **pub)); continue
             if len(want) > 8: rep.sample(dict(line=line[:300], output=xi[:200]), cap=4)
-    rep.assumptions = ['containers are modelled as lists, buffer identity as an id; allocator-taking constructors are not instantiated', 'std::array containers must be large enough for the mapping (a precondition the library does not check)']
+    rep.assumptions = ['containers are modelled as lists, buffer identity as an id; allocator-taking constructors are instantiated with std::allocator only (no pmr, no stateful allocator)', 'std::array containers must be large enough for the mapping (a precondition the library does not check)']
     return rep.finish(audit)
